@@ -518,6 +518,10 @@ type rtpUpConnection struct {
 	replace string
 	tracks  []*rtpUpTrack
 	local   []conn.Down
+
+	// the arguments of the most recent call to pushConn
+	pushGroup   *group.Group
+	pushClients []group.Client
 }
 
 func (up *rtpUpConnection) getTracks() []*rtpUpTrack {
@@ -622,6 +626,7 @@ func pushConnNow(up *rtpUpConnection, g *group.Group, cs []group.Client) {
 func pushConn(up *rtpUpConnection, g *group.Group, cs []group.Client) {
 	up.mu.Lock()
 	up.pushed = false
+	up.pushGroup, up.pushClients = g, cs
 	up.mu.Unlock()
 
 	go func(g *group.Group, cs []group.Client) {
@@ -629,6 +634,9 @@ func pushConn(up *rtpUpConnection, g *group.Group, cs []group.Client) {
 		up.mu.Lock()
 		pushed := up.pushed
 		up.pushed = true
+		// a later call may have reset pushed: push to its clients,
+		// ours may lack the ones that have joined in the meantime
+		g, cs = up.pushGroup, up.pushClients
 		up.mu.Unlock()
 		if !pushed {
 			pushConnNow(up, g, cs)
